@@ -25,6 +25,7 @@ BOUND = ("distributions: Uniform on 5 intervals, Triangle on 5 (interval, peak) 
          "steps), 35% of the runs continued to a second stop with continue_adaptive_refinement, 4 model shapes g, random c, e, K; every stop is queried "
          "4-5 times (default path twice, node-based path, moment queries, default path again) and the stored solutions of all evaluations once; "
          "quick 30 (+3 repeated at the end), thorough ~700 (+12) runs")
+BOUND += "; fault / magnitude additions: at the second stop of two-stop moment cases: cache emptied, node-based query hit by a model fault at its third evaluation, query repeated"
 RULE = (BOUND + "; a case is one (distribution set-up, boundary flag, tree seed) resp. one (set-up, model, c, e, K, refinement limits); non-trivial = at "
         "least 4 points in some dimension resp. at least one refinement beyond the initial scheme. Tolerances: weight sums abs tol_w = 1e-12 + 200*eps*max(1,|x|)/h_min (the code's w2 = (M1-M0*x1)/h amplifies the rounding of the moments by 1/h; "
         "1e-12..1e-8 in this universe); uniform weights rel 1e-9 + tol_w; "
